@@ -8,6 +8,8 @@ package main
 // "not translated" (it keeps its hand-written term, tied by correspondence only).
 
 import (
+	"go/printer"
+	"bytes"
 	"debug/macho"
 	"fmt"
 	"go/ast"
@@ -899,6 +901,42 @@ func translateFuncs(repo string) (map[string]string, map[string]string) {
 	return done, failed
 }
 
+// callShapes: detector functions whose whole body is `return helper(args...)` with a same-package helper that lies
+// outside the GoLite fragment (jsonHelper, sv, ...): the helper's name and the arguments as written.  The model
+// dispatches such detectors to its model of the helper with these arguments (Model/Detectors.call_terms).
+func callShapes(repo string) map[string][]string {
+	fset, files := parseDir(filepath.Join(repo, "internal", "magic"))
+	out := map[string][]string{}
+	for _, f := range files {
+		for _, d := range f.Decls {
+			fd, ok := d.(*ast.FuncDecl)
+			if !ok || fd.Recv != nil || fd.Body == nil || !ast.IsExported(fd.Name.Name) || !isDetectorSig(fd.Type) || len(fd.Body.List) != 1 {
+				continue
+			}
+			rs, ok := fd.Body.List[0].(*ast.ReturnStmt)
+			if !ok || len(rs.Results) != 1 {
+				continue
+			}
+			c, ok := rs.Results[0].(*ast.CallExpr)
+			if !ok {
+				continue
+			}
+			id, ok := c.Fun.(*ast.Ident)
+			if !ok || ast.IsExported(id.Name) {
+				continue
+			}
+			shape := []string{id.Name}
+			for _, a := range c.Args {
+				var b bytes.Buffer
+				printer.Fprint(&b, fset, a)
+				shape = append(shape, strings.Join(strings.Fields(b.String()), " "))
+			}
+			out[fd.Name.Name] = shape
+		}
+	}
+	return out
+}
+
 func writeFuncTerms(repo, outDir string) bool {
 	done, failed := translateFuncs(repo)
 	var sb strings.Builder
@@ -951,6 +989,27 @@ func writeFuncTerms(repo, outDir string) bool {
 		cf = append(cf, n)
 	}
 	sort.Strings(cf)
+	shapes := callShapes(repo)
+	sn := make([]string, 0, len(shapes))
+	for n := range shapes {
+		if _, translated := done[n]; !translated {
+			sn = append(sn, n)
+		}
+	}
+	sort.Strings(sn)
+	sb.WriteString("(* detectors outside the fragment whose body is a single call of a same-package helper: helper name and the\n   arguments as written in the current source *)\nDefinition gen_call_shapes : list (string * list string) := [\n")
+	for i, n := range sn {
+		sep := ";"
+		if i == len(sn)-1 {
+			sep = ""
+		}
+		parts := make([]string, len(shapes[n]))
+		for k, a := range shapes[n] {
+			parts[k] = fmt.Sprintf("%q", strings.ReplaceAll(a, "\"", "'"))
+		}
+		fmt.Fprintf(&sb, "  (%q, [%s])%s\n", n, strings.Join(parts, "; "), sep)
+	}
+	sb.WriteString("].\n\n")
 	sb.WriteString("Definition gen_comb_untranslated : list (string * string) := [\n")
 	for i, n := range cf {
 		sep := ";"
